@@ -124,31 +124,25 @@ instances = [
          mut("default_scaler_accepted", "setIntParam", "case SCALER_GEOEQUI:\n         _scaler = &_scalerGeoequi;\n#ifdef SOPLEX_WITH_MPFR\n         _boostedScaler = &_boostedScalerGeoequi;\n#endif\n         break;\n\n      default:\n         return false;", "case SCALER_GEOEQUI:\n         _scaler = &_scalerGeoequi;\n#ifdef SOPLEX_WITH_MPFR\n         _boostedScaler = &_boostedScalerGeoequi;\n#endif\n         break;\n\n      default:\n         break;"),
          mut("value_not_stored", "setIntParam", "_currentSettings->_intParamValues[param] = value;\n   return true;", "return true;"),
          mut("timer_touches_lp", "setIntParam", "case TIMER_OFF:\n         _solver.setTiming(Timer::OFF);", "case TIMER_OFF:\n         _realLP->changeSense(SPxLPBase<R>::MINIMIZE);\n         _solver.setTiming(Timer::OFF);"),
-         mut("reject_after_mutation", "setIntParam", "case SoPlexBase<R>::DISPLAYFREQ:\n      _solver.setDisplayFreq(value);\n      break;", "case SoPlexBase<R>::DISPLAYFREQ:\n      _solver.setDisplayFreq(value);\n      if(value == 7) return false;\n      break;"),
-     ]},
-    {"name": "setIntParam_reject_simplifier_ptr", "function": "SoPlexBase<R>::setIntParam(const IntParam param, const int value, const bool init) [clause: a rejected call leaves _simplifier/_boostedSimplifier alone]",
-     "defines": dict(PINNED, INST_INT="", CLAUSE_REJECT_SIMPLIFIER_PTR=""), "harness": "h_setInt", "enforce": "w_setInt",
-     "slices": GETTERS + [S_INT], "min_obligations": 40, "tier": "thorough", "expected_s": 20,
-     "mutants": [
          mut("scaler_case_clears_simplifier", "setIntParam", "case SoPlexBase<R>::SCALER:", "case SoPlexBase<R>::SCALER:\n      _simplifier = nullptr;"),
+         # re-introduces the fixed defect (8067644): SIMPLIFIER_PAPILO without PaPILO re-targets the simplifier and THEN rejects
+         mut("papilo_reject_with_side_effect", "setIntParam", "#else\n         return false;\n#endif", "#else\n         _simplifier = &_simplifierMainSM;\n#ifdef SOPLEX_WITH_MPFR\n         _boostedSimplifier = &_boostedSimplifierMainSM;\n#endif\n         return false;\n#endif"),
+         mut("reject_after_mutation", "setIntParam", "case SoPlexBase<R>::DISPLAYFREQ:\n      _solver.setDisplayFreq(value);\n      break;", "case SoPlexBase<R>::DISPLAYFREQ:\n      _solver.setDisplayFreq(value);\n      if(value == 7) return false;\n      break;"),
      ]},
     {"name": "setRealParam", "function": "SoPlexBase<R>::setRealParam(const RealParam param, const Real value, const bool init)",
      "defines": dict(PINNED, INST_REAL=""), "harness": "h_setReal", "enforce": "w_setReal",
      "slices": GETTERS + [S_REAL], "min_obligations": 80, "tier": "quick", "expected_s": 60,
      "mutants": [
-         mut("upper_bound_unchecked", "setRealParam", "|| value > _currentSettings->realParam.upper[param])", "|| value > _currentSettings->realParam.upper[param] + 1.0)"),
-         mut("lower_bound_unchecked", "setRealParam", "if(value < _currentSettings->realParam.lower[param]", "if(value < _currentSettings->realParam.lower[param] && init"),
+         mut("upper_bound_unchecked", "setRealParam", "&& value <= _currentSettings->realParam.upper[param]))", "&& value <= _currentSettings->realParam.upper[param] + 1.0))"),
+         mut("lower_bound_unchecked", "setRealParam", "if(!(value >= _currentSettings->realParam.lower[param]", "if(!((value >= _currentSettings->realParam.lower[param] || init)"),
+         # re-introduces the fixed defect (ba1d875): both comparisons are false for NaN, so NaN passes the range test
+         mut("nan_accepted", "setRealParam", r"if\(!\(value >= _currentSettings->realParam\.lower\[param\]\s*&& value <= _currentSettings->realParam\.upper\[param\]\)\)",
+             "if(value < _currentSettings->realParam.lower[param] || value > _currentSettings->realParam.upper[param])", regex=True),
          mut("offset_only_real_lp", "setRealParam", "if(_rationalLP)\n         _rationalLP->changeObjOffset(value);", "if(_rationalLP && init)\n         _rationalLP->changeObjOffset(value);"),
          mut("epsilon_touches_lp", "setRealParam", "_tolerances->setEpsilon(Real(value));", "_tolerances->setEpsilon(Real(value)); _realLP->changeObjOffset(value);"),
          mut("feastol_to_opttol", "setRealParam", "_rationalFeastol = value;\n      this->_tolerances->setFeastol(value);", "_rationalFeastol = value;\n      this->_tolerances->setOpttol(value);"),
          mut("stores_other_value", "setRealParam", "Real tmp_value = value;", "Real tmp_value = value + 1.0;"),
          mut("neg_infty_sign", "setRealParam", "_rationalNegInfty = -_rationalNegInfty;", "_rationalNegInfty = _rationalNegInfty;"),
-     ]},
-    {"name": "setRealParam_accepted_in_range", "function": "SoPlexBase<R>::setRealParam(const RealParam param, const Real value, const bool init) [clause: accepted => lower <= value <= upper, NaN included]",
-     "defines": dict(PINNED, INST_REAL="", CLAUSE_ACCEPTED_IN_RANGE=""), "harness": "h_setReal", "enforce": "w_setReal",
-     "slices": GETTERS + [S_REAL], "min_obligations": 40, "tier": "thorough", "expected_s": 30,
-     "mutants": [
-         mut("upper_bound_unchecked", "setRealParam", "|| value > _currentSettings->realParam.upper[param])", "|| value > _currentSettings->realParam.upper[param] + 1.0)"),
      ]},
 ]
 
